@@ -514,8 +514,13 @@ func c20Run(c core.Case) core.Result {
 			ok = true
 		}
 		msg := err.Error()
-		if strings.HasSuffix(msg, " "+name) || strings.Contains(msg, "\""+name+"\"") || strings.Contains(msg, "'"+name+"'") || strings.Contains(msg, " "+name+":") {
+		inMsg := strings.HasSuffix(msg, " "+name) || strings.Contains(msg, "\""+name+"\"") || strings.Contains(msg, "'"+name+"'") || strings.Contains(msg, " "+name+":")
+		if inMsg {
 			ok = true
+		}
+		// a message that says "... in <something>" must say the name as it is (a name is not a format string)
+		if i := strings.LastIndex(msg, " in "); ok && !inMsg && i >= 0 {
+			return core.Violation("template-not-identified", fmt.Sprintf("template %q = %q loaded via %s fails with %q: the message names %q, not the template", name, c.Src, via, msg, msg[i+4:]))
 		}
 		if !ok {
 			return core.Violation("template-not-identified", fmt.Sprintf("template %q = %q loaded via %s fails with %q, which does not identify the template (Name() / message)", name, c.Src, via, msg))
@@ -606,8 +611,19 @@ func c20Levels(tier string) []core.Level {
 							ins("{% bogus %}", 3, "unknown tag")
 							continue
 						}
-						if t.in == "{#" || t.kind == kStr || t.kind == kQClose || t.kind == kWS {
+						if t.in == "{#" || t.kind == kStr || t.kind == kQClose || t.kind == kWS || t.kind == kIOpen {
 							continue
+						}
+						if t.kind == kWord {
+							// the second word of "not in", "is not", "starts with", "ends with": junk in front of it makes the
+							// first word an error of its own, which is rightly reported first
+							p := i - 1
+							for p >= 0 && toks[p].kind == kWS {
+								p--
+							}
+							if p >= 0 && toks[p].kind == kWord && ((t.text == "in" && toks[p].text == "not") || (t.text == "not" && toks[p].text == "is") || (t.text == "with" && (toks[p].text == "starts" || toks[p].text == "ends"))) {
+								continue
+							}
 						}
 						_ = i
 						for _, ch := range []string{"$", "@", ";", "\\", "!", "^", "&"} {
@@ -621,10 +637,10 @@ func c20Levels(tier string) []core.Level {
 				}
 			}
 		}},
-		{Name: "errors raised while loading a named template identify it: 6 broken templates x 4 names x {direct, parse, include, extends, import, embed, use}", Gen: func(emit func(core.Case)) {
+		{Name: "errors raised while loading a named template identify it: 6 broken templates x 13 names (incl. '%' sequences, spaces, non-ASCII, ' in ') x {direct, parse, include, extends, import, embed, use}", Gen: func(emit func(core.Case)) {
 			broken := []string{"x{% if %}", "{{ a", "{% bogus %}", "{{ a $ }}", "t{% for i in x %}", "{% include %}"}
 			for _, b := range broken {
-				for _, name := range []string{"a", "a.html.twig", "dir/b.twig", "my tpl.twig"} {
+				for _, name := range []string{"a", "a.html.twig", "dir/b.twig", "my tpl.twig", "100%.twig", "a%20b.twig", "%s", "report_%d.twig", "{0}.twig", "a\\b.twig", "ü€.twig", "a:b", "x in y.twig"} {
 					for _, via := range []string{"direct", "parse", "include", "extends", "import", "embed", "use"} {
 						emit(core.Case{Fam: "name", Src: b, Args: []string{name, via}})
 					}
